@@ -1178,6 +1178,18 @@ class Interp:
             if xs[0] == ys[0]:
                 return True
             return self.choose(2, f"same-text({xs[0][1][13:]},{ys[0][1][13:]})", ["true", "false"]) == 0
+        for p_, q_ in ((xs, ys), (ys, xs)):
+            if len(p_) == 1 and len(q_) == 1 and isinstance(p_[0], tuple) and p_[0][0] == "num" and isinstance(q_[0], str):
+                # the text of a number against a literal: equal iff the literal spells that number (int / float spelling of
+                # equal values is taken to agree)
+                try:
+                    val = float(q_[0])
+                except ValueError:
+                    return False
+                if val != val or val in (float("inf"), float("-inf")):
+                    return False
+                return self.sign_query(("sub", p_[0][1], A.lit(int(val) if val == int(val) else val)), frozenset(["zero"]),
+                                       f"{A.term_str(p_[0][1])}=={q_[0]}")
         if len(xs) == len(ys) and len(xs) > 1 and self._aligned_pieces(xs, ys):
             # the same sequence of piece classes (literal text / number / identifier) with unambiguous boundaries: the
             # texts are equal iff every pair of pieces is
